@@ -1122,6 +1122,18 @@ class Walker:
                 return mk_bool(Not(is_variant(recv, okv)))
             if name in ('as_ref', 'as_mut', 'as_deref', 'as_deref_mut', 'copied', 'cloned', 'clone', 'ok'):
                 return recv
+            if name == 'err' and _is_res(recv_ty) and len(args) == 1:
+                # Result<T, E> -> Option<E>
+                def _to_err(r):
+                    if isinstance(r, tuple) and r:
+                        if r[0] == 'ok':
+                            return ('none',)
+                        if r[0] == 'err':
+                            return ('some', r[1])
+                        if r[0] == 'ite':
+                            return mk_ite(r[1], _to_err(r[2]), _to_err(r[3]))
+                    return mk_ite(is_variant(r, 'Ok'), ('none',), ('some', ('err_of', r)))
+                return _to_err(recv)
             if name == 'take':
                 self.emit('call', n, pc, **data)
                 return recv
